@@ -70,3 +70,68 @@ Theorem C08_race : forall cfg pol s p ct1 b1 inm1 s1 o1 ct2 b2 inm2 o0,
   /\ is_error (fst (snd (do_put cfg pol s1 p ct2 b2 (CTag (EtItem o0)) inm2))) = true.
 Proof. exact put_race. Qed.
 Print Assumptions C08_race.
+
+(* ---------------------------------------------------------------------------------------------------------
+   Races of ANY number of conditional writers on one resource, over whole request histories through the
+   dispatcher [handle] (with the gate's home creation), in any order -- run_history over an arbitrary list is
+   every serial order; with C09-C11 (requests are serialised by the storage lock) that is every interleaving.
+   --------------------------------------------------------------------------------------------------------- *)
+Require RV.Proofs.C08Race RV.Proofs.ReprExample.
+Import RV.Proofs.C08Race.
+
+(* writers: PUT / DELETE of p with If-Match: <ETag of o0>.  A response is [changing] when it is a success that
+   leaves p with another ETag than o0's.  At most one writer changes the resource, whatever the other requests'
+   bodies, content types and If-None-Match flags are, whoever the user is and whatever the rights policy says. *)
+Theorem C08_race_n : forall cfg pol user p o0 rs s,
+  store_inv s -> Forall (writer p o0) rs ->
+  (count (changing o0) (snd (run_history cfg pol user s rs)) <= 1)%nat.
+Proof. exact race_n. Qed.
+Print Assumptions C08_race_n.
+
+(* once the ETag the writers hold is stale, every one of them is refused and nothing is lost *)
+Theorem C08_stale_writers_refused : forall cfg pol user p o0 rs s,
+  store_inv s -> Forall (writer p o0) rs -> stale s p o0 ->
+  Forall (fun resp => is_error (fst resp) = true) (snd (run_history cfg pol user s rs))
+  /\ count (changing o0) (snd (run_history cfg pol user s rs)) = 0%nat.
+Proof. exact race_stale. Qed.
+Print Assumptions C08_stale_writers_refused.
+
+(* exactly one: when the first writer changes the resource, all the later ones are answered with an error and the
+   store stays what the winner left (up to the gate's idempotent home creation) *)
+Theorem C08_race_first_wins : forall cfg pol user p o0 r rs s,
+  store_inv s -> Forall (writer p o0) (r :: rs) ->
+  changing o0 (snd (handle cfg pol user s r)) = true ->
+  Forall (fun resp => is_error (fst resp) = true) (snd (run_history cfg pol user (fst (handle cfg pol user s r)) rs))
+  /\ fst (run_history cfg pol user (fst (handle cfg pol user s r)) rs)
+     = match rs with [] => fst (handle cfg pol user s r) | _ => ensure_home pol (fst (handle cfg pol user s r)) user end.
+Proof. exact race_first_wins. Qed.
+Print Assumptions C08_race_first_wins.
+
+(* creators: PUT of p with If-None-Match: * (any If-Match).  At most one of any number of them succeeds. *)
+Theorem C08_create_race_n : forall cfg pol user p rs s,
+  store_inv s -> Forall (creator p) rs ->
+  (count succeeded (snd (run_history cfg pol user s rs)) <= 1)%nat.
+Proof. exact create_race_n. Qed.
+Print Assumptions C08_create_race_n.
+
+(* non-vacuity: on a populated store three writers race from the current ETag of /10/20/100 -- a PUT, a DELETE and
+   another PUT: the first is carried out, the other two get 412; two creators of /10/20/101: one 201, one 412. *)
+Example C08_race_nonvacuous :
+  let pol := fun _ : path => [82; 87; 114; 119] in
+  let o0 := ReprExample.ex_ob in
+  let rs := [RPut [10; 20; 100] CTNone (BCal [mkObj 0 CEvent 1]) (CTag (EtItem o0)) false;
+             RDelete [10; 20; 100] (CTag (EtItem o0));
+             RPut [10; 20; 100] CTNone (BCal [mkObj 0 CEvent 2]) (CTag (EtItem o0)) false] in
+  let cs := [RPut [10; 20; 101] CTNone (BCal [mkObj 5 CEvent 7]) CNone true;
+             RPut [10; 20; 101] CTNone (BCal [mkObj 5 CEvent 8]) CNone true] in
+  store_inv ReprExample.ex_sig3
+  /\ Forall (writer [10; 20; 100] o0) rs
+  /\ map fst (snd (run_history (mkConfig true true) pol (Some 10) ReprExample.ex_sig3 rs)) = [S201; S412; S412]
+  /\ count (changing o0) (snd (run_history (mkConfig true true) pol (Some 10) ReprExample.ex_sig3 rs)) = 1%nat
+  /\ Forall (creator [10; 20; 101]) cs
+  /\ map fst (snd (run_history (mkConfig true true) pol (Some 10) ReprExample.ex_sig3 cs)) = [S201; S412].
+Proof.
+  cbv zeta. split; [exact (proj1 (proj2 ReprExample.R_nonvacuous))|].
+  split; [repeat constructor|]. split; [vm_compute; reflexivity|]. split; [vm_compute; reflexivity|].
+  split; [repeat constructor|]. vm_compute; reflexivity.
+Qed.
